@@ -77,6 +77,12 @@ def gen_atom(rng, simple_only=False):
     if k == "forall_subs_vs_d":
         return [k, rng.choice(["<=", ">=", "!="])]
     if k == "or":
+        if rng.random() < 0.3:
+            # one operand is a universal statement over the element's own collection (the element is already bound)
+            fa = ["forall_subs", rng.choice(["<", "<=", ">", ">=", "!="]), t()]
+            pair = [fa, gen_atom(rng, True)]
+            rng.shuffle(pair)
+            return ["or"] + pair
         return ["or", gen_atom(rng, True), gen_atom(rng, True)]
     if k == "not":
         return ["not", gen_atom(rng, True)]
